@@ -1587,13 +1587,17 @@ class VM:
             """Create a bound function with fixed this and optional partial args."""
             bound_this = args[0] if args else UNDEFINED
             bound_args = list(args[1:]) if len(args) > 1 else []
+            target = func
+            if hasattr(func, "_original_func"):
+                # binding a bound function: its this and arguments stay in force
+                bound_this = func._bound_this
+                bound_args = list(func._bound_args) + bound_args
+                target = func._original_func
 
             # Create a new function that wraps the original
             bound_func = JSFunction(
-                name=func.name,
-                params=func.params[
-                    len(bound_args) :
-                ],  # Remaining params after bound args
+                name="bound " + func.name,
+                params=func.params[len(args[1:]) :],  # Remaining params after bound args
                 bytecode=func.bytecode,
             )
             # Copy compiled function reference
@@ -1605,7 +1609,7 @@ class VM:
             # Store binding info on the function
             bound_func._bound_this = bound_this
             bound_func._bound_args = bound_args
-            bound_func._original_func = func
+            bound_func._original_func = target
             return bound_func
 
         def call_fn(*args):
@@ -2693,6 +2697,11 @@ class VM:
         for _ in range(arg_count):
             args.insert(0, self.stack.pop())
         constructor = self.stack.pop()
+        if hasattr(constructor, "_original_func"):
+            # new on a bound function constructs the target: the bound
+            # arguments are kept, the bound this is ignored
+            args = list(constructor._bound_args) + args
+            constructor = constructor._original_func
 
         if isinstance(constructor, JSFunction):
             # Create new object
